@@ -11,13 +11,13 @@ CHECKS = {
             "R-bls reference (pv/ref/bls.py), cost predictor that resamples trees the unchanged implementation cannot answer"),
     "C02": ("reference-model monitor (R-layout) on every type object of generated universes, two build routes compared, and on their pickled / deep-copied / copied forms",
             "R-layout restates the Specification's layout rules; R-bls evaluates the expected sets; cost predictor bounds divisors"),
-    "C06": ("reference-codec monitor (R-codec, independent IEEE-754 and bit packing) on serialize/deserialize + M-bitio shadow writer hooked on the real _BitWriter; histories in which the judged call follows a call rejected part-way",
+    "C06": ("reference-codec monitor (R-codec, independent IEEE-754 and bit packing) on serialize/deserialize + M-bitio shadow writer hooked on the real _BitWriter; histories in which the judged call follows a call rejected part-way or an in-place mutation of an earlier result by the caller",
             "R-codec is the trusted wire-format reference; NaN payloads not compared; serdes-sized capacities"),
-    "C07": ("reference-decoder monitor on hostile byte strings + M-bitio shadow reader (every read_bits vs bounded reference extraction), metamorphic zero-extension/truncation",
+    "C07": ("reference-decoder monitor on hostile byte strings + M-bitio shadow reader (every read_bits vs bounded reference extraction), metamorphic zero-extension/truncation, re-decoding after the caller mutated the earlier result in place",
             "R-codec decoder decides accept/reject and the value; serdes-sized capacities"),
     "C08": ("reference-model monitor (R-layout offsets) on iterate_fields_with_offsets/enumerate_elements_with_offsets + membership of R-codec's real field placements + @print intrinsics observed through the print handler; the same on pickled / copied model objects",
             "R-layout / R-codec references; `_offset_` queried only where the set is small enough to expand"),
-    "C14": ("paired-revision workload: live comparison of container layouts/offsets + cross-revision serialize/deserialize against a structural projection oracle, M-bitio sub-reader shadow; layouts compared on pickled / copied type graphs too",
+    "C14": ("paired-revision workload: live comparison of container layouts/offsets + cross-revision serialize/deserialize against a structural projection oracle, M-bitio sub-reader shadow; layouts compared on pickled / copied type graphs too; re-reading / re-writing after the caller mutated a received object in place",
             "R-codec / R-layout references; D is a structure"),
     "C16": ("M-expand probe on every Operator.expand + M-enum counting proxy for _symbolic.itertools with per-divisor invariants + M-builtin (min/max/sum/sorted/any/all of the set modules charged for operand size before C code walks it) + sys.monitoring step meter, compared across capacity magnitudes congruent mod 64",
             "cost measured in logical units only; templates too expensive for the unchanged implementation at the smallest magnitude are resampled"),
